@@ -242,13 +242,146 @@ def _drop_guards(repo):
     return rows, lean
 
 
-@item("C15_POOL_TAKE_CLEARS")
-def _pool_take(repo):
+@item("C15_POOLS")
+def _pools(repo):
+    """the buffer pools of the code generator: (take function, clears?, recycle function, clears?)"""
     src = _nocomment(read(repo, "minijinja/src/compiler/codegen.rs"))
     rows = []
-    for fn in ("take_pending_block_buffer", "take_span_stack_buffer"):
-        body = fn_body(src, r"fn %s\s*\(\)" % fn)
-        rows.append((fn, bool(re.search(r"\bbuf\.clear\(\)", body))))
-    lean = "def c15PoolTakeClears : List (String × Bool) := [" + ", ".join(
+    for what in ("pending_block", "span_stack"):
+        take, rec = f"take_{what}_buffer", f"recycle_{what}_buffer"
+        tb = fn_body(src, r"fn %s\s*\(\)" % take)
+        rb = fn_body(src, r"fn %s\s*\(" % rec)
+        rows.append((take, bool(re.search(r"\bbuf\.clear\(\)", tb)), rec, bool(re.search(r"\bbuf\.clear\(\)", rb))))
+    # the per-render pool of macro contexts (vm/mod.rs): a context is reset when taken and cleared
+    # before EVERY push back
+    vm = _nocomment(read(repo, "minijinja/src/vm/mod.rs"))
+    ctxsrc = _nocomment(read(repo, "minijinja/src/vm/context.rs"))
+    em = vm
+    take_ok = bool(re.search(r"macro_context_pool\s*\.\s*pop\(\)[^;]*;\s*ctx\.reset_with_frame\(", em)) and \
+        bool(re.search(r"self\.clear\(\)", fn_body(ctxsrc, r"pub fn reset_with_frame\s*\(")))
+    pushes = re.findall(r"(\w+)\.clear\(\);\s*state\.macro_context_pool\.push\(\1\)", vm)
+    all_pushes = re.findall(r"macro_context_pool\.push\(", vm)
+    if not all_pushes:
+        raise KeyError("macro_context_pool pushes")
+    rows.append(("macro_context_pool.pop+reset_with_frame", take_ok, "macro_context_pool.push", len(pushes) == len(all_pushes)))
+    b = lambda x: "true" if x else "false"
+    lean = "def c15Pools : List (String × Bool × String × Bool) := [" + ", ".join(
+        f"({lean_str(a)}, {b(x)}, {lean_str(c)}, {b(y)})" for a, x, c, y in rows) + "]"
+    return rows, lean
+
+
+@item("C15_HANDLE_REGISTRY")
+def _handle_registry(repo):
+    """`ValueHandleRegistry`: does `remove` compare the handle of the single slot, does `insert` use the
+    single slot only when the registry is entirely empty"""
+    src = _nocomment(read(repo, "minijinja/src/value/mod.rs"))
+    impl = fn_body(src, r"impl ValueHandleRegistry\s*\{")
+    rm = fn_body(impl, r"fn remove\s*\(")
+    ins = fn_body(impl, r"fn insert\s*\(")
+    rows = [("remove-compares-single-handle", bool(re.search(r"single_handle\s*==\s*handle|handle\s*==\s*single_handle", rm))),
+            ("insert-single-only-when-empty", bool(re.search(r"self\.single\.is_none\(\)\s*&&\s*self\.overflow\.is_empty\(\)", ins)))]
+    lean = "def c15HandleRegistry : List (String × Bool) := [" + ", ".join(
         f"({lean_str(a)}, {'true' if b else 'false'})" for a, b in rows) + "]"
     return rows, lean
+
+
+@item("C15_INSERT_ARM_PATTERNS")
+def _insert_arm_patterns(repo):
+    """the patterns of the two `insert_cow` arms: the borrowed arm needs BOTH parts borrowed"""
+    src = read(repo, LOADER)
+    body = _nocomment(fn_body(src, r"pub fn insert_cow\s*\("))
+    inner = fn_body(body, r"match \(source, name\)\s*\{")
+    pats = [re.sub(r"\s+", " ", m.group(1)).strip() for m in re.finditer(r"(?m)^\s*(\([^\n]*?\))\s*=>\s*\{", inner)]
+    if not pats:
+        raise KeyError("insert_cow arm patterns")
+    return pats, f"def c15InsertArmPatterns : List String := {_lean_list(pats)}"
+
+
+def _strip_tests(src):
+    """remove `#[cfg(test)] mod x { … }` blocks"""
+    out = src
+    while True:
+        m = re.search(r"#\[cfg\(test\)\]\s*(?:pub\s+)?mod\s+\w+\s*\{", out)
+        if not m:
+            return out
+        i = out.index("{", m.start())
+        depth, j = 0, i
+        while j < len(out):
+            if out[j] == "{":
+                depth += 1
+            elif out[j] == "}":
+                depth -= 1
+                if depth == 0:
+                    break
+            j += 1
+        out = out[:m.start()] + out[j + 1:]
+
+
+_CELL = r"(?:\bCell<|\bRefCell<|\bMutex<|\bRwLock<|\bAtomic[A-Z]\w*|\bOnceLock<|\bOnceCell<|\bLazyLock<|\bLazyCell<|\bLazy<|\bMemoMap<|\bUnsafeCell<)"
+_CTOR = r"\b(Cell|RefCell|Mutex|RwLock|Atomic[A-Z]\w*|OnceLock|OnceCell|LazyLock|LazyCell|MemoMap|UnsafeCell)::(?:new|default|with_capacity)\s*\("
+
+
+def _kind_of(ty):
+    for k, pat in [("once", r"OnceLock<|OnceCell<|LazyLock<|LazyCell<|Lazy<"), ("memo", r"MemoMap<"), ("atomic", r"Atomic[A-Z]"),
+                   ("mutex", r"Mutex<|RwLock<"), ("refcell", r"RefCell<|UnsafeCell<"), ("cell", r"\bCell<")]:
+        if re.search(pat, ty):
+            return k
+    return "plain"
+
+
+@item("C15_HIDDEN_STATE")
+def _hidden_state(repo):
+    """Every piece of process-global, thread-local or interior-mutable state of the crate (tests, the
+    vendored self_cell and the feature-gated verif_hooks aside), one row `file|how|owner|kind`:
+      thread_local / static / static-mut   a static (kind by type: once, atomic, cell, refcell, mutex, memo, plain);
+                                           a `once` static also says how many `get_or_init`/`set` sites fill it
+      field       a struct/enum field whose type is interior-mutable, or whose name says pool
+      cow         a registry written through `Arc::make_mut(&mut self.x)`
+      created-in  a function that creates an interior-mutable value (locals, struct literals)"""
+    import os
+    rows = []
+    for rel in _rs_files(repo):
+        src = _strip_tests(_nocomment(read(repo, os.path.join("minijinja/src", rel))))
+        tl_spans = []
+        for m in re.finditer(r"thread_local!\s*\{", src):
+            body = fn_body(src[m.start():], r"thread_local!\s*\{")
+            tl_spans.append((m.start(), m.start() + len(body) + 20))
+            for name, ty in re.findall(r"static\s+(?:mut\s+)?(\w+)\s*:\s*([^=;]+)=", body):
+                rows.append(f"{rel}|thread_local|{name}|{_kind_of(ty)}")
+
+        def in_tl(pos):
+            return any(a <= pos <= b for a, b in tl_spans)
+        for m in re.finditer(r"\bstatic\s+(mut\s+)?([A-Z_][A-Z0-9_]*)\s*:\s*([^=;]+)=", src):
+            if in_tl(m.start()):
+                continue
+            k = _kind_of(m.group(3))
+            row = f"{rel}|static{'-mut' if m.group(1) else ''}|{m.group(2)}|{k}"
+            if k == "once":
+                sites = len(re.findall(r"\b%s\s*\.\s*(?:get_or_init|get_or_try_init|set)\s*\(" % re.escape(m.group(2)), src))
+                row += f"|filled-at-{sites}-site" + ("" if sites == 1 else "s")
+            rows.append(row)
+        for sm in re.finditer(r"\b(?:struct|enum)\s+(\w+)[^;{(]*\{", src):
+            try:
+                body = fn_body(src[sm.start():], r"\b(?:struct|enum)\s+\w+[^;{(]*\{")
+            except Exception:
+                continue
+            for fm in re.finditer(r"(?m)^\s*(?:pub(?:\([^)]*\))?\s+)?(\w+)\s*:\s*([^\n]+?),?\s*$", body):
+                fname, ty = fm.group(1), fm.group(2)
+                if re.search(_CELL, ty):
+                    rows.append(f"{rel}|field|{sm.group(1)}.{fname}|{_kind_of(ty)}")
+                elif "pool" in fname.lower():
+                    rows.append(f"{rel}|field|{sm.group(1)}.{fname}|pool")
+        for name in sorted(set(re.findall(r"Arc::make_mut\s*\(\s*&mut\s+self\.(\w+)\s*\)", src))):
+            rows.append(f"{rel}|cow|{name}|arc")
+        for m in re.finditer(_CTOR, src):
+            line_start = src.rfind("\n", 0, m.start()) + 1
+            line = src[line_start:src.find("\n", m.start())]
+            if re.search(r"\bstatic\s+(?:mut\s+)?[A-Z_]", line) or in_tl(m.start()):
+                continue
+            fns = list(re.finditer(r"\bfn\s+(\w+)", src[:m.start()]))
+            fn = fns[-1].group(1) if fns else "-"
+            rows.append(f"{rel}|created-in|{fn}|{_kind_of(m.group(1) + '<')}")
+    rows = sorted(set(rows))
+    if not rows:
+        raise KeyError("hidden state")
+    return rows, f"def c15HiddenState : List String := {_lean_list(rows)}"
